@@ -87,7 +87,9 @@ def theorem_names(module: str):
         if m and ns and ns[-1] == m.group(1):
             ns.pop()
             continue
-        m = re.match(r"\s*(?:@\[[^\]]*\]\s*)?(?:private\s+|protected\s+)?theorem\s+(\S+)", line)
+        # (private helper lemmas of examples are not addressable by name; whatever a public theorem uses of them
+        # is included in that theorem's own `#print axioms`)
+        m = re.match(r"\s*(?:@\[[^\]]*\]\s*)?(?:protected\s+)?theorem\s+(\S+)", line)
         if m:
             names.append(".".join(ns + [m.group(1)]))
     return names
